@@ -86,7 +86,16 @@ func (c17) Exec(seed int64, i int, tier string) Record {
 			gen = "bad-utf8:" + class
 		}
 	}
+	longTail := i%40 == 9
+	if longTail {
+		// class long-tail (round 8): 1100..3000 bytes of path follow the spot of a syntax error; position / near are
+		// checked model-free only (the grammar models are not asked about texts of this length)
+		s, gen = c17LongTail(r, s), gen+"+long-tail"
+	}
 	rec := Record{Text: s, Tags: []string{"gen:" + gen}}
+	if longTail {
+		rec.Tags = append(rec.Tags, "class:long-tail")
+	}
 	if !utf8.ValidString(s) {
 		// The generated parser works on []rune(path): every invalid byte is the character U+FFFD there.
 		// The model works on Unicode strings, so it is given exactly that character sequence
@@ -99,7 +108,9 @@ func (c17) Exec(seed int64, i int, tier string) Record {
 		rec.Info = map[string]interface{}{"path_go_quoted": strconv.Quote(s), "note": "the path contains invalid UTF-8 bytes (JSON cannot show them: use path_go_quoted)"}
 	}
 	acc := r.Chance(30)
-	cfg := Config(acc, nil)
+	// the registry WITHOUT the case-variant decoys of registry.go: the grammar models know the registry's names only,
+	// so a name like `TWICE` must be "function not found" on both sides (a library that folds case would accept it)
+	cfg := ConfigNoDecoys(acc)
 	f, out, tree := ParseTree(s, &cfg)
 	accS := "f"
 	if acc {
@@ -178,10 +189,35 @@ func (c17) Exec(seed int64, i int, tier string) Record {
 		rec.Class = "abnormal"
 		return rec
 	}
+	if longTail {
+		if out.ErrKind == "syntax" {
+			rec.Tags = append(rec.Tags, "long-tail:syntax-error")
+		}
+		return rec
+	}
 	rec.Q = []LeanQ{{Driver: "peg", Line: "(q parse " + accS + " " + SexpString(s) + ")", Expect: expect,
 		What: "real Parse vs the grammar executed in Lean (parseModel)", Oracle: true, Skip: "(q unmodelled)"}}
 	// three-way (L20): the same question answered with the expressions decompiled from the rule functions of jsonpath.peg.go
 	rec.Q = append(rec.Q, LeanQ{Driver: "peggo", Line: "(q goparse " + accS + " " + SexpString(s) + ")", Expect: expect,
 		What: "real Parse vs the decompiled rule functions of jsonpath.peg.go executed in Lean (Gen.goGrammar)", Oracle: true, Skip: "(q unmodelled)"})
 	return rec
+}
+
+// c17LongTail: base + a token that cannot continue a path + 1100..3000 bytes of path-like text.
+func c17LongTail(r *Rng, base string) string {
+	if len(base) > 400 {
+		base = "$.a[0]"
+	}
+	bad := r.Pick([]string{"]", " x", "$$", "[", "..", "'", ")", "[?(", "[1,", ".", "[?(@.a==)]", "\u00e9]", "[?(@.a=~/(/)]"})
+	segs := []string{".abc", "[0]", "['k']", "[*]", "..x", "[1:2]", "[?(@.a==1)]", ".\u00e9\u3000", "[\"q\",'r']", ".count()", " ", "[?(@.b=~/x/)]", ".\U0001F600"}
+	want := r.Range(1100, 3000)
+	tail := ""
+	for len(tail) < want {
+		tail += r.Pick(segs)
+	}
+	if r.Chance(15) {
+		// no error token: the tail itself is valid text, the error (if any) is where the base has it
+		bad = ""
+	}
+	return base + bad + tail
 }
